@@ -344,8 +344,14 @@ def add_relations(rng, prog, feat):
         ta = Analysis(trial)
         if ta.defects():
             continue
-        if r["kind"] == "conflict" and any(x == y for x, y, _ in ta.explicit_pairs()):
-            continue  # one transaction reaching both sides: known finding F8/F9, generated separately
+        if r["kind"] == "conflict":
+            selfs = [(x, rr) for x, y, rr in ta.explicit_pairs() if x == y and rr is trial["relations"][-1]]
+            if selfs:
+                # one transaction reaches both sides of the conflict (shapes of findings F8 / F9): only at a
+                # low rate, and on non-exclusive paths only where the property under test speaks about it
+                excl = all(ta.self_conflict_exclusive(x, ta.resolve(r["a"]), ta.resolve(r["b"])) for x, _ in selfs)
+                if rng.random() >= (f.get("p_self_conflict_excl", 0.0) if excl else f.get("p_self_conflict_nonexcl", 0.0)):
+                    continue
         if r["kind"] == "before" and r.get("rdep"):
             # the dependent side must not also be required by the source's own transactions
             if set(ta.trans_for.get(r["a"], [])) & set(ta.trans_for.get(r["b"], [])):
